@@ -324,8 +324,11 @@ class FailOpen:
     k-th one injects `mode` in {"before_open","before_write","mid_write","at_close"}; with
     `crash=True` calls os._exit(137) instead of raising (subprocess mode)."""
 
-    def __init__(self, k=None, mode=None, crash=False, root=None):
+    def __init__(self, k=None, mode=None, crash=False, root=None, persistent=False):
         self.k, self.mode, self.crash, self.root = k, mode, crash, root
+        # persistent: the condition behind the fault stays (disk full, quota): once it has struck, every later
+        # write-mode open still succeeds (and truncates), and every write to it fails
+        self.persistent = persistent
         self.count = 0
         self.fired = False
         self.opened = []
@@ -337,6 +340,9 @@ class FailOpen:
             idx = self.count
             self.count += 1
             self.opened.append((os.path.basename(str(file)), mode))
+            if self.persistent and self.fired and not self.crash:
+                self.later_opens = getattr(self, "later_opens", 0) + 1
+                return _FaultyFile(builtins.open(file, mode, *a, **kw), "before_write", self)
             if self.k is not None and idx == self.k:
                 if self.mode == "before_open":
                     self.fired = True
